@@ -1,7 +1,7 @@
 CONSTANTS
   Dev = {}
   Alphabet <- AlphaNum
-  MaxLen = 5
+  MaxLen = 4
   Prune = FALSE
   DepthProbe = {0, 256}
 INIT Init
